@@ -75,6 +75,7 @@ fn build(port: u16, threads: usize, sh: Arc<Shared>, slow_teardown: bool) -> Ser
             Some("aborted") => ConnectionAborted,
             Some("eof") => UnexpectedEof,
             Some("wouldblock") => WouldBlock,
+            Some("interrupted") => Interrupted,
             Some("timedout") => TimedOut,
             Some("invaliddata") => InvalidData,
             _ => Other,
